@@ -237,7 +237,11 @@ func VerifL2Election(n, focus, order int) {
 // assumed to have a subset of the first one's eligible nodes.
 func VerifL2Failover(n, focus, order int) {
 	v1v := vhSymView(n, 1, 1, focus)
-	v2v := vhSymView(n, 1, 1, focus)
+	neps2 := 1
+	if focus&vhFEndpoint != 0 {
+		neps2 = 2 // several endpoint entries (possibly on one node, in any order) in the second view
+	}
+	v2v := vhSymView(n, 1, neps2, focus)
 	v2v.ip = v1v.ip
 	// the second service may be dual-stack: same first address plus an arbitrary IPv6 one
 	if vr.Bool() {
